@@ -98,7 +98,7 @@ class Sim(object):
             "status": st["status"],
             "output": last["state"]["output"],
             "errors": sorted(repr(sorted(e.items())) for e in last["state"]["errors"]),
-            "records": sorted((r["id"], r.get("status")) for r in st["sequence"]),
+            "records": sorted((r["id"], str(r.get("status"))) for r in st["sequence"]),
             "executed": sorted((k[0], k[2], k[4]) for k in self.executed),
             "published": sorted(repr(sorted(c.items())) for c in st["contexts"][1:]),
         }
